@@ -224,7 +224,7 @@ def photometric_cases(draw):
 # histories
 
 READS = ['profile', 'profile_error', 'area', 'data_profile', 'radius']
-OPS = READS + ['normalize_max', 'normalize_sum', 'unnormalize']
+OPS = READS + ['normalize_max', 'normalize_sum', 'unnormalize', 'ee_at_radius']
 
 
 def check_history(case, ctx):
@@ -256,6 +256,24 @@ def check_history(case, ctx):
                             f'{when}: {name} differs from reference/{N!r}: '
                             f'{got[:4]} vs {exp[:4]}', attr=name)
     for op in case['ops']:
+        if op == 'ee_at_radius':
+            # the interpolator must follow the *current* profile (it passes
+            # through the sampled points)
+            if kind != 'cog':
+                continue
+            with warnings.catch_warnings():
+                warnings.simplefilter('ignore')
+                rad = np.asarray(value(obj.radius), float)
+                got = np.asarray(value(obj.calc_ee_at_radius(rad)), float)
+            exp = R['profile'] / N
+            ctx.event('ee_at_radius_after_normalize' if normalized_once
+                      else 'ee_at_radius')
+            if not allclose(got, exp, 1e-9, 1e-300):
+                raise Violation('history_ee_at_radius',
+                                f'after ops {case["ops"]}: calc_ee_at_radius at '
+                                f'the sampled radii {got[:4]} differs from the '
+                                f'current profile {exp[:4]}', attr='ee')
+            continue
         if op in READS:
             if op not in names:
                 continue
